@@ -2441,3 +2441,61 @@ def specialise_walkers(tree, resolve_def):
             ast.fix_missing_locations(fn)
             done.append('%s:%s' % (fn.name, d.name))
     return done
+
+
+# ---------------------------------------------------------------------------------------------------------------------
+# properties added to Tree
+# ---------------------------------------------------------------------------------------------------------------------
+KNOWN_TREE_MEMBERS = {'cat', 'children', 'op_string', 'op_symbol', 'head_is_left', 'is_leaf', 'is_unary', 'child', 'left_child', 'right_child', 'leaves', 'tokens',
+                      'token', 'word', 'nltk_tree', 'make_terminal', 'make_unary', 'make_binary', 'of_nltk_tree'}
+
+
+def derived_tree_properties(tree_module_text):
+    """read-only properties of class Tree that the reference tree does not have and that are one expression over `self`:
+    {name: (self name, expression)} -- `head_index` = `0 if self.head_is_left else 1`"""
+    try:
+        raw = ast.parse(tree_module_text)
+    except SyntaxError:
+        return {}
+    out = {}
+    for c in raw.body:
+        if isinstance(c, ast.ClassDef) and c.name == 'Tree':
+            setters = {d.attr for f in c.body if isinstance(f, ast.FunctionDef) for d in f.decorator_list if isinstance(d, ast.Attribute) and d.attr in ('setter', 'deleter')}
+            for f in c.body:
+                if isinstance(f, ast.FunctionDef) and f.name not in KNOWN_TREE_MEMBERS and not f.name.startswith('_') and len(f.args.args) == 1 \
+                        and [ast.unparse(d) for d in f.decorator_list] == ['property'] and f.name not in setters:
+                    body = [s for s in f.body if not _is_doc(s)]
+                    if len(body) == 1 and isinstance(body[0], ast.Return) and body[0].value is not None \
+                            and not any(isinstance(n, (ast.Call, ast.Lambda, ast.Yield, ast.Await, ast.NamedExpr)) and not (
+                                isinstance(n, ast.Call) and isinstance(n.func, ast.Name) and n.func.id in ('len', 'int', 'bool', 'str')) for n in ast.walk(body[0].value)):
+                        out[f.name] = (f.args.args[0].arg, body[0].value)
+    return out
+
+
+def expand_derived_tree_properties(tree, props):
+    """x.<new property of Tree> reads as the expression the property returns, with x for self (wherever a plain name or
+    attribute chain is the receiver)"""
+    if not props:
+        return []
+    done = []
+
+    class _T(ast.NodeTransformer):
+        def visit_Attribute(self, node):
+            self.generic_visit(node)
+            if isinstance(node.ctx, ast.Load) and node.attr in props:
+                recv = node.value
+                base = recv
+                while isinstance(base, ast.Attribute):
+                    base = base.value
+                if isinstance(base, ast.Name):
+                    me, expr = props[node.attr]
+                    new = _Subst(names={me: recv}).visit(_clone(expr))
+                    done.append(node.attr)
+                    return ast.copy_location(new, node)
+            return node
+    for st in tree.body:
+        if isinstance(st, ast.ClassDef) and st.name == 'Tree':
+            continue        # the definitions themselves
+        _T().visit(st)
+    ast.fix_missing_locations(tree)
+    return done
